@@ -42,7 +42,8 @@ EXT = {'N': '.nii', 'P': '.img', 'M': '.mgh', 'A': '.img'}
 S_C09B = ('get_fdata() of an image whose cached array is the memory map of a plain file (float64 NIfTI) that a later '
           'save of ANOTHER image object has overwritten with a shorter file: SIGBUS when the data exceed a page (silently '
           'different values otherwise); inherent to mmap (the same image saving onto its own file drops its caches '
-          'since 29b7b6ce); likewise an image whose OWN array is such a map (built around np.asanyarray(dataobj) / get_fdata())')
+          'since 29b7b6ce); likewise an image whose OWN array is such a map (built around np.asanyarray(dataobj) / get_fdata() / '
+          'np.asarray(dataobj)) after ANOTHER image object has rewritten the file (its own save onto the file re-points it since 4923d550)')
 # --------------------------------------------------------------------------- platform / source facts
 FACTS = {}
 
@@ -143,7 +144,7 @@ def gen_tables():
            'Definition platform_cfg (n : Z) (paths : list pinfo) (fids : list nat) (fx : bool)',
            '    (scale : list (fmt * dtype * nat * nat)) (mixed lowdim : bool) : cfg :=',
            '  mkCfg n platform_page paths fids platform_off platform_foot platform_conv fx scale platform_nointer',
-           '        mixed lowdim true true platform_tclass true.', '']
+           '        mixed lowdim true true platform_tclass true true.', '']
     p = os.path.join(common.COQ, 'C09', 'Tables.v')
     new = '\n'.join(txt)
     if not os.path.exists(p) or open(p).read() != new:
@@ -260,7 +261,7 @@ def model_line(hid, cfgname, shape, imgs, ops, facts, fix=1, shift=0):
     conv = ';'.join(f'{a}:{b}:{d}:{r}' for a, b, d, r in facts['conv']) or '-'
     rows, _ = scale_table(shape, shift)
     scale = ';'.join(f'{f}:{d}:{v}:{k}' for f, d, v, k in rows) or '-'
-    flags = f"{int(shift != 0)}{int(len(shape) < 3)}111"
+    flags = f"{int(shift != 0)}{int(len(shape) < 3)}1111"
     return (f"{hid} run {fix} {facts['page']} {n} " + ','.join(str(facts['off'][k]) for k in 'NPMA') + ' ' +
             ','.join(str(facts['foot'][k]) for k in 'NPMA') + ' ' + conv + ' ' + scale + ' ' +
             ''.join(str(int(facts['nointer'][k])) for k in 'NPMA') + ' ' + flags + ' ' +
@@ -670,9 +671,6 @@ def run(chk: Check):
                 # NaN / huge values does not survive a dtype change
                 chk.known('S-C09b', S_C09B)
                 chk.tagc('known:S-C09b:save_of_stale_array_map')
-            elif sig == 'array_map':     # (S-C09d, once classified here, is fixed: 9bb93cff)
-                chk.known('S-C09b', S_C09B)
-                chk.tagc('known:S-C09b:array_is_map_of_rewritten_file')
             else:
                 fails.append(f'step {kp} ({ops[kp]}): {what}' + (f' [{sig}]' if sig != '-' else ''))
         bad_other = [t for t in itoks if t.startswith('ref:other') or t.startswith('died:')]
@@ -715,8 +713,8 @@ def run(chk: Check):
         'histories), C09_no_crash (every history on which the computed predicate `affected` is false), '
         'C09_affected_is_real (tightness), C09_no_crash_partial (static sufficient condition)',
         'C09_save_never_crashes / C09_files_decode carry the side condition backed (no unbacked live map: else S-C09b); '
-        'C09_usable excludes a saver whose own array maps the target (S-C09b); S-C09d is fixed (9bb93cff): '
-        'C09_view_of_map_refuted keeps its witnesses with the repair switched off',
+        'S-C09d (9bb93cff) and S-C09e (4923d550) are fixed: C09_view_of_map_refuted / C09_map_saver_refuted keep their '
+        'witnesses with the repairs switched off; C09_usable has no own-array exclusion any more',
         'C09_files_decode: the file holds written(g, fmt, dtype, v): it decodes to v except when MGH (no scaling) clips '
         'data of both signs to uint8 (lemma written_val); integer quantisation itself is C02\'s subject; C09_usable '
         'carries the same exclusion and the side conditions names_wf / classes_ok (invariant of every run)']
